@@ -1087,8 +1087,9 @@ def run_r9(prog, res, cg, floor=0):
                 stat.discharged += 1
                 continue
             hit = None
-            for (dn, _r, k) in vdefs:
-                if k is None or k == pd or not reach_without(fn, pd, k, pdefs | escapes):
+            unrooted = v not in rooted_locals(fn)
+            for (dn, _r, k) in ([(i, None, pd)] if unrooted else []) + vdefs:
+                if k is None or (k == pd and not unrooted) or (k != pd and not reach_without(fn, pd, k, pdefs | escapes)):
                     continue
                 for c, x in enumerate(fn.nodes):
                     if x["k"] != "call" or not x.get("o"):
@@ -1097,7 +1098,7 @@ def run_r9(prog, res, cg, floor=0):
                     if f2 is None or f2 not in maygc:
                         continue
                     pc = enclosing_elem(fn, c, pos)
-                    if pc is None or c in fn.subtree(dn) or not (reach_without(fn, k, pc, pdefs | {pd})):
+                    if pc is None or c in fn.subtree(dn) or not (reach_without(fn, k, pc, pdefs | {pd} | (escapes if k == pd else set()))):
                         continue
                     for u in uses:
                         pu = enclosing_elem(fn, u, pos)
